@@ -514,6 +514,7 @@ func (e *Engine) translateFunc(key string, preCells []*Cell) (res *funcResult) {
 			c := &Cell{"fv$" + fv.Name(), th.SortOf(elem)}
 			entry.Havoc(c)
 			t.assumeInv(c, elem)
+			entry.Assign(&Cell{"old$" + fv.Name(), c.S}, c)
 			lv := &lval{kind: lvCell, cell: c, typ: elem}
 			f.freeVars[fv] = sval{typ: fv.Type(), lv: lv}
 			f.params[fv.Name()] = sval{e: c, typ: elem, lv: lv}
@@ -576,9 +577,12 @@ func (e *Engine) translateFunc(key string, preCells []*Cell) (res *funcResult) {
 	t.cur.Goto(body)
 	f.translateBody(body)
 
+	var staleAsserts []Clause
 	for _, a := range fc.Asserts {
 		if !t.usedAsserts[a.Label] {
-			fail("stale-contract: assert %s: site %q not found", a.Label, a.Site)
+			// the code changed under the contract: what still binds is checked, the clause that no
+			// longer has a site becomes a failed obligation of its own (fail closed)
+			staleAsserts = append(staleAsserts, a)
 		}
 	}
 	// loops: bind contracts by ordinal
@@ -589,7 +593,9 @@ func (e *Engine) translateFunc(key string, preCells []*Cell) (res *funcResult) {
 	res.Loops = len(heads)
 	for n := range fc.Loops {
 		if n < 1 || n > len(heads) {
-			fail("stale-contract: contract for loop %d but the function has %d loops", n, len(heads))
+			// a loop of the contract is gone from the code: its invariants bind nothing any more; the
+			// remaining clauses are still checked (a recursion that replaced the loop is an obligation)
+			res.Assumptions = append(res.Assumptions, fmt.Sprintf("stale contract: %s has a contract for loop %d but %d loops; that loop contract is ignored", key, n, len(heads)))
 		}
 	}
 	env := f.bodyEnv(false)
@@ -724,6 +730,11 @@ func (e *Engine) translateFunc(key string, preCells []*Cell) (res *funcResult) {
 		return
 	}
 	res.Obls = obls
+	for _, a := range staleAsserts {
+		empty := []string{}
+		res.Obls = append(res.Obls, &Obligation{Proc: key, Name: key + "/stale-contract/assert/" + a.Label, Props: propsOr(a.Props, fc.Props), script: &empty,
+			goal: "(assert true)", Meta: map[string]string{"pos": fmt.Sprintf("the site %q of this contract clause no longer exists in the working tree", a.Site)}})
+	}
 	for _, n := range t.gorder {
 		res.globals = append(res.globals, t.globals[n])
 	}
